@@ -239,14 +239,18 @@ def run_bin(path, args, lines, timeout=1800):
     return p.returncode, p.stdout.splitlines(), p.stderr
 
 
-def run_pair(ctx, comp, cases):
+BINS = {"corr": CORR, "e2e": E2E}
+
+
+def run_pair(ctx, comp, cases, binname=None):
     """cases: list of lists of op lines (each case self-contained). Returns per-case (impl, model) outputs."""
     flat = []
     bounds = []
     for c in cases:
         bounds.append((len(flat), len(flat) + len(c)))
         flat.extend(c)
-    rc1, impl, e1 = run_bin(CORR, [comp], flat)
+    binname = binname or ("e2e" if comp == "stack" else "corr")
+    rc1, impl, e1 = run_bin(BINS[binname], [comp], flat)
     rc2, model, e2 = run_bin(MODEL, [comp], flat)
     if rc1 != 0 or len(impl) != len(flat):
         # the harness process died (abort, stack overflow): bisect to the offending case
